@@ -132,6 +132,9 @@ func build(stmt *Statement, parent reflect.Value, types *typeDictionary) (v refl
 		keyword = k
 	}
 	t := nameMap[keyword]
+	if t == nil {
+		return nilValue, fmt.Errorf("%s: unknown statement: %s", stmt.Location(), stmt.Keyword)
+	}
 	y := typeMap[t]
 	// Keep track of which substatements are present in the statement.
 	found := map[string]bool{}
